@@ -83,4 +83,235 @@ theorem C03_keyword_table_complete :
 /-- non-vacuity of `C03_submodule_first` -/
 example : partialMatch ["", "gtsam", "noise"] ["", "gtsam"] = true ∧ ["", "gtsam"].length < ["", "gtsam", "noise"].length := by decide
 
+/-! ### module variables are defined before they are used -/
+
+/-- the module variables a statement places something in -/
+def stmtUses : PyStmt → List String
+  | .submodule _ pv _ => [pv]
+  | .cls _ _ mv _ _ _ => [mv]
+  | .fwdCls _ mv _ => [mv]
+  | .enum _ mv _ _ inClass => if inClass then [] else [mv]   -- a class-varsOK enum is placed in the class instance
+  | .var mv _ _ _ => [mv]
+  | .func mv _ => [mv]
+
+def stmtDefines : PyStmt → List String
+  | .submodule v _ _ => [v]
+  | _ => []
+
+/-- every statement uses only module variables that exist at that point (`defd`: those that exist on entry) -/
+def varsOK : List String → List PyStmt → Bool
+  | _, [] => true
+  | defd, s :: r => (stmtUses s).all (fun v => defd.contains v) && varsOK (stmtDefines s ++ defd) r
+
+def definesOf : List PyStmt → List String
+  | [] => []
+  | s :: r => definesOf r ++ stmtDefines s
+
+theorem varsOK_mono : ∀ (ss : List PyStmt) (d d' : List String), (∀ v ∈ d, v ∈ d') → varsOK d ss = true → varsOK d' ss = true
+  | [], _, _, _, _ => rfl
+  | s :: r, d, d', hsub, h => by
+    simp only [varsOK, Bool.and_eq_true, List.all_eq_true, List.contains_eq_mem, decide_eq_true_eq] at h ⊢
+    refine ⟨fun v hv => hsub v (h.1 v hv), ?_⟩
+    apply varsOK_mono r (stmtDefines s ++ d) (stmtDefines s ++ d') _ h.2
+    intro v hv
+    simp only [List.mem_append] at hv ⊢
+    rcases hv with hv | hv
+    · exact Or.inl hv
+    · exact Or.inr (hsub v hv)
+
+theorem varsOK_append : ∀ (a b : List PyStmt) (d : List String),
+    varsOK d a = true → varsOK d b = true → varsOK d (a ++ b) = true
+  | [], b, d, _, hb => hb
+  | s :: r, b, d, ha, hb => by
+    simp only [varsOK, Bool.and_eq_true, List.cons_append] at ha ⊢
+    exact ⟨ha.1, varsOK_append r b _ ha.2 (varsOK_mono b d _ (fun v hv => by simp [hv]) hb)⟩
+
+mutual
+  /-- every class and typedef'd declaration records the namespace path it stands in -/
+  def consistent (p : List String) : IDecl → Bool
+    | .cls c => c.nsPath == p
+    | .decl fd => fd.nsPath == p
+    | .ns n c => consistentL (p ++ [n]) c
+    | _ => true
+  def consistentL (p : List String) : List IDecl → Bool
+    | [] => true
+    | d :: r => consistent p d && consistentL p r
+end
+
+theorem partialMatch_snoc : ∀ (p top : List String) (n : String), partialMatch p top = true → top.length ≤ p.length →
+    partialMatch (p ++ [n]) top = true
+  | [], [], _, _, _ => by simp [partialMatch]
+  | [], t :: ts, _, _, h => by simp at h
+  | a :: p, [], _, _, _ => by simp [partialMatch]
+  | a :: p, t :: ts, n, hm, hl => by
+    simp only [partialMatch, Bool.and_eq_true] at hm
+    simp only [List.cons_append, partialMatch, hm.1, Bool.true_and]
+    exact partialMatch_snoc p ts n hm.2 (by simpa using hl)
+
+
+theorem varsOK_funcs (cfg : Cfg) (mv caller : String) (d : List String) (h : mv ∈ d) : ∀ (content : List IDecl),
+    varsOK d (content.filterMap fun x => match x with
+      | .func f => some (PyStmt.func mv (emitFunc cfg f caller))
+      | _ => none) = true
+  | [] => rfl
+  | x :: r => by
+    have ih := varsOK_funcs cfg mv caller d h r
+    cases x <;> simp [List.filterMap_cons, varsOK, stmtUses, stmtDefines, h, ih]
+
+theorem varsOK_emitClass (cfg : Cfg) (c : IClass) (d : List String) (h : moduleVar cfg c.nsPath ∈ d) :
+    varsOK d (emitClass cfg c) = true := by
+  unfold emitClass
+  split
+  · rfl
+  · simp only [varsOK, classStmt, stmtUses, stmtDefines, List.all_cons, List.all_nil, Bool.and_true, List.nil_append,
+      List.contains_eq_mem, h, decide_true, Bool.true_and]
+    unfold classEnums
+    induction c.enums with
+    | nil => rfl
+    | cons e r ih => simp [varsOK, stmtUses, stmtDefines, ih]
+
+
+theorem dropLast_snoc (p : List String) (n : String) : (p ++ [n]).dropLast = p := by simp
+
+mutual
+  theorem varsOK_inner (cfg : Cfg) : ∀ (content : List IDecl) (p : List String) (defd : List String),
+      moduleVar cfg p ∈ defd → consistentL p content = true → cfg.top.length ≤ p.length → partialMatch p cfg.top = true →
+      varsOK defd (emitInner cfg p (moduleVar cfg p) content).1 = true
+    | [], _, _, _, _, _, _ => by simp [emitInner, varsOK]
+    | .incl h :: r, p, defd, hmv, hc, hl, hm => by
+      simp only [consistentL, Bool.and_eq_true] at hc
+      simpa [emitInner] using varsOK_inner cfg r p defd hmv hc.2 hl hm
+    | .fwd v t par :: r, p, defd, hmv, hc, hl, hm => by
+      simp only [consistentL, Bool.and_eq_true] at hc
+      simpa [emitInner] using varsOK_inner cfg r p defd hmv hc.2 hl hm
+    | .func f :: r, p, defd, hmv, hc, hl, hm => by
+      simp only [consistentL, Bool.and_eq_true] at hc
+      simpa [emitInner] using varsOK_inner cfg r p defd hmv hc.2 hl hm
+    | .enum e :: r, p, defd, hmv, hc, hl, hm => by
+      simp only [consistentL, Bool.and_eq_true] at hc
+      have ih := varsOK_inner cfg r p defd hmv hc.2 hl hm
+      simp only [emitInner]
+      simp [varsOK, stmtUses, stmtDefines, hmv, ih]
+    | .var v :: r, p, defd, hmv, hc, hl, hm => by
+      simp only [consistentL, Bool.and_eq_true] at hc
+      have ih := varsOK_inner cfg r p defd hmv hc.2 hl hm
+      simp only [emitInner]
+      simp [varsOK, stmtUses, stmtDefines, hmv, ih]
+    | .cls c :: r, p, defd, hmv, hc, hl, hm => by
+      simp only [consistentL, Bool.and_eq_true] at hc
+      have ih := varsOK_inner cfg r p defd hmv hc.2 hl hm
+      have hp : c.nsPath = p := by simpa [consistent] using hc.1
+      simp only [emitInner]
+      exact varsOK_append _ _ _ (varsOK_emitClass cfg c defd (by rw [hp]; exact hmv)) ih
+    | .decl fd :: r, p, defd, hmv, hc, hl, hm => by
+      simp only [consistentL, Bool.and_eq_true] at hc
+      have ih := varsOK_inner cfg r p defd hmv hc.2 hl hm
+      have hp : fd.nsPath = p := by simpa [consistent] using hc.1
+      simp only [emitInner]
+      split
+      · simpa using ih
+      · simp [varsOK, stmtUses, stmtDefines, hp, hmv, ih]
+    | .ns n c :: r, p, defd, hmv, hc, hl, hm => by
+      simp only [consistentL, Bool.and_eq_true] at hc
+      have ih := varsOK_inner cfg r p defd hmv hc.2 hl hm
+      have hcn : consistentL (p ++ [n]) c = true := by simpa [consistent] using hc.1
+      have hm' := partialMatch_snoc p cfg.top n hm hl
+      have hlen : ¬ (p ++ [n]).length < cfg.top.length := by simp; omega
+      have hgt : (p ++ [n]).length > cfg.top.length := by simp; omega
+      have hin := varsOK_inner cfg c (p ++ [n]) (moduleVar cfg (p ++ [n]) :: defd) (by simp) hcn (by simp; omega) hm'
+      simp only [emitInner]
+      apply varsOK_append _ _ _ _ ih
+      unfold emitNs
+      simp only [hm', Bool.not_true, Bool.false_eq_true, if_false, hlen, hgt, if_true, dropLast_snoc]
+      simp only [List.cons_append, List.nil_append, varsOK, stmtUses, stmtDefines, List.all_cons, List.all_nil, Bool.and_true,
+        List.contains_eq_mem, hmv, decide_true, Bool.true_and]
+      exact varsOK_append _ _ _ hin (varsOK_funcs cfg _ _ _ (by simp) c)
+  theorem varsOK_outer (cfg : Cfg) : ∀ (content : List IDecl) (p : List String) (defd : List String),
+      "m_" ∈ defd → consistentL p content = true → p.length < cfg.top.length →
+      varsOK defd (emitOuter cfg p content).1 = true
+    | [], _, _, _, _, _ => by simp [emitOuter, varsOK]
+    | .incl h :: r, p, defd, hm_, hc, hl => by
+      simp only [consistentL, Bool.and_eq_true] at hc
+      simpa [emitOuter] using varsOK_outer cfg r p defd hm_ hc.2 hl
+    | .fwd v t par :: r, p, defd, hm_, hc, hl => by
+      simp only [consistentL, Bool.and_eq_true] at hc
+      simpa [emitOuter] using varsOK_outer cfg r p defd hm_ hc.2 hl
+    | .func f :: r, p, defd, hm_, hc, hl => by
+      simp only [consistentL, Bool.and_eq_true] at hc
+      simpa [emitOuter] using varsOK_outer cfg r p defd hm_ hc.2 hl
+    | .enum e :: r, p, defd, hm_, hc, hl => by
+      simp only [consistentL, Bool.and_eq_true] at hc
+      simpa [emitOuter] using varsOK_outer cfg r p defd hm_ hc.2 hl
+    | .var v :: r, p, defd, hm_, hc, hl => by
+      simp only [consistentL, Bool.and_eq_true] at hc
+      simpa [emitOuter] using varsOK_outer cfg r p defd hm_ hc.2 hl
+    | .cls c :: r, p, defd, hm_, hc, hl => by
+      simp only [consistentL, Bool.and_eq_true] at hc
+      simpa [emitOuter] using varsOK_outer cfg r p defd hm_ hc.2 hl
+    | .decl fd :: r, p, defd, hm_, hc, hl => by
+      simp only [consistentL, Bool.and_eq_true] at hc
+      simpa [emitOuter] using varsOK_outer cfg r p defd hm_ hc.2 hl
+    | .ns n c :: r, p, defd, hm_, hc, hl => by
+      simp only [consistentL, Bool.and_eq_true] at hc
+      have ih := varsOK_outer cfg r p defd hm_ hc.2 hl
+      have hcn : consistentL (p ++ [n]) c = true := by simpa [consistent] using hc.1
+      simp only [emitOuter]
+      apply varsOK_append _ _ _ _ ih
+      unfold emitNs
+      by_cases hpm : partialMatch (p ++ [n]) cfg.top = true
+      · simp only [hpm, Bool.not_true, Bool.false_eq_true, if_false]
+        by_cases hlt : (p ++ [n]).length < cfg.top.length
+        · simp only [hlt, if_true]
+          exact varsOK_outer cfg c (p ++ [n]) defd hm_ hcn hlt
+        · have heq : (p ++ [n]).length = cfg.top.length := by simp at hlt ⊢; omega
+          have hngt : ¬ (p ++ [n]).length > cfg.top.length := by omega
+          have htop := C03_top_is_root_module cfg (p ++ [n]) heq
+          have hin := varsOK_inner cfg c (p ++ [n]) defd (by rw [htop]; exact hm_) hcn (by omega) hpm
+          simp only [hlt, if_false, hngt, List.nil_append]
+          exact varsOK_append _ _ _ hin (varsOK_funcs cfg _ _ _ (by rw [htop]; exact hm_) c)
+      · have : partialMatch (p ++ [n]) cfg.top = false := by simpa using hpm
+        simp [this, varsOK]
+end
+
+/-- **Module variables are defined before anything is placed in them (C03, C09).**  For a module whose classes and
+    typedef'd declarations record the namespace path they stand in (`consistentL`), every statement of the generated
+    `PYBIND11_MODULE` body places its binding in `m_` or in a sub-module variable that an earlier `def_submodule`
+    statement has defined.  (The two known findings — a typedef of a template of a LATER namespace, and the second
+    definition of the variable of a re-opened namespace — are exactly: an inconsistent path, and uniqueness, which this
+    theorem does not claim.) -/
+theorem C03_module_vars_defined_before_use (cfg : Cfg) (im : List IDecl) (hc : consistentL [""] im = true)
+    (htop : partialMatch [""] cfg.top = true) (hne : cfg.top ≠ []) :
+    varsOK ["m_"] (emitNs cfg "" [""] im).1 = true := by
+  unfold emitNs
+  simp only [htop, Bool.not_true, Bool.false_eq_true, if_false]
+  by_cases hlt : [""].length < cfg.top.length
+  · simp only [hlt, if_true]
+    exact varsOK_outer cfg im [""] ["m_"] (by simp) hc hlt
+  · have heq : [""].length = cfg.top.length := by
+      cases htl : cfg.top with
+      | nil => exact absurd htl hne
+      | cons a r => rw [htl] at hlt; simp at hlt ⊢; omega
+    have hngt : ¬ [""].length > cfg.top.length := by omega
+    have ht := C03_top_is_root_module cfg [""] heq
+    have hin := varsOK_inner cfg im [""] ["m_"] (by rw [ht]; simp) hc (by omega) htop
+    simp only [hlt, if_false, hngt, List.nil_append]
+    exact varsOK_append _ _ _ hin (varsOK_funcs cfg _ _ _ (by rw [ht]; simp) im)
+
+
+/-- non-vacuity: a module with a class in a nested namespace below the top namespace satisfies the hypotheses; and the
+    shape of the known finding (a class that records ANOTHER namespace than the one it stands in, as a typedef of a
+    template of a later namespace does) is rejected by `consistentL` and indeed uses a variable before its definition -/
+example :
+    let cfg : Cfg := { moduleName := "m", top := ["", "gtsam"], useBoost := false, ignore := [] }
+    let cls (path : List String) : IClass :=
+      { name := "A", origName := "A", hasTmpl := false, insts := [], isVirtual := false, nsPath := path, parentClass := none,
+        ctors := [], statics := [], props := [], ops := [], enums := [], methods := [], dunders := [] }
+    let good : List IDecl := [.ns "gtsam" [.ns "noise" [.cls (cls ["", "gtsam", "noise"])], .cls (cls ["", "gtsam"])]]
+    let bad : List IDecl := [.ns "gtsam" [.ns "a" [.cls (cls ["", "gtsam", "b"])], .ns "b" []]]
+    consistentL [""] good = true ∧ partialMatch [""] cfg.top = true ∧ varsOK ["m_"] (emitNs cfg "" [""] good).1 = true
+      ∧ consistentL [""] bad = false ∧ varsOK ["m_"] (emitNs cfg "" [""] bad).1 = false := by
+  simp (config := {decide := true}) [consistentL, consistent, partialMatch, emitNs, emitOuter, emitInner, emitClass, classStmt, classEnums,
+    varsOK, stmtUses, stmtDefines, moduleVar, joinWith, IClass.toCpp]
+
+
 end WrapModel.Props.C03
